@@ -7,6 +7,13 @@ import json, os, subprocess
 ROOT = os.path.dirname(os.path.dirname(os.path.abspath(__file__)))
 
 CHECKS = {
+    "C16": dict(cat="exploration", sec="5 C16",
+                tech="runtime monitor: reference list model vs real discovery server/client node pairs driven over HTTP by harness-owned registrants; hook-steered polls racing registrations; online timestamp monotonicity; race detector",
+                text="4-8 pairs of complete in-process nodes (server S, pure client C polling S over real localhost HTTP via a synchronous refresh shim). Registrants are harness-owned did:jwk/did:key holders presenting harness-issued JWT credentials (status lists served by the harness). "
+                     "Seeded histories (~25 events) of register / refresh / retract / expire (SQL ageing), 24 classes of defective registrations, concurrent bursts, planted entries C cannot verify, server resets (new seed) and one real reinstall per pair, with client polls at arbitrary "
+                     "points and polls parked at the store hook while 1-2 registrations race them (seeded scheduler, distinct interleavings counted). Oracle: S's list and search equal the model after every event (one live entry per subject, nothing refused/superseded/retracted); "
+                     "timestamps strictly increase, seed stable per epoch; every defective registration refused and list unchanged; C's search returns only verified unexpired entries of the current seed; after <=2 polls at quiescence C equals the model's live set.",
+                note="SQLite stores; dropped HTTP responses not injected; expired entries served until pruned and audience errors answered 500 are unspecified."),
     "C03": dict(cat="exploration", sec="5 C03",
                 tech="runtime monitor: canary scan of every output channel of full nodes for all encodings of the private scalars the harness reads from the key directory; namespace monitor (file-tree snapshots + inotify decoys) over hostile key names; sign/verify agreement",
                 text="Two full in-process nodes (did:web and did:nuts) with the fs key back end at debug/trace verbosity and body logging; log and audit taps installed before start. Workload of 113 distinct operations (subjects, keys, ldp/jwt issuance, presentations, "
